@@ -245,6 +245,12 @@ def bfSchedule (c : BFCfg) (s : S) : S × List Out :=
       match bfLoop s.pilots (eligiblePids c s) s.wait with
       | (ps', un, outs) => ({ s with pilots := ps', wait := un }, outs)
 
+/-- what the other threads of the component see at the moment a pass hands its placed tasks on (`advance`, no lock held):
+    the pilots as the pass left them, and - depending on whether the pass replaced the wait pool inside its lock
+    section (`writeInPass`) - the remainder, or still the pool the pass started from -/
+def bfVisibleAtHandOver (writeInPass : Bool) (c : BFCfg) (s : S) : S :=
+  if writeInPass then (bfSchedule c s).1 else { (bfSchedule c s).1 with wait := s.wait }
+
 /-- `Backfilling.add_pilots`: fresh `info` per pilot -/
 def bfInitInfo (c : BFCfg) : List Pilot → List Nat → List Nat → List Pilot
   | ps, [],          _           => ps
